@@ -202,6 +202,10 @@ def unoptional(th):
 # ----
 
 
+def _has_literal(th) -> bool:
+    return any(map(is_literal, traverse_typehint(th)))
+
+
 def is_subtype(sub, base):
     # add hack to ignore pydantic Annotated FieldInfo
     # add hacky fix for literals
@@ -213,6 +217,10 @@ def is_subtype(sub, base):
         return False  # not equal on annotated wrapping status
 
     if not ann_sub:
+        if not lit_sub and _has_literal(sub) and not _has_literal(base):
+            # same as above for literals nested below Optional/Union/List/...:
+            # a literal value is not checked against the constraints of a non-literal type
+            return False
         # proceed as usual
         return rv.is_subtype(sub, base)
         # return typing_utils.issubtype(sub, base)
